@@ -181,11 +181,25 @@ def real_traces(chk, rng, n_custom):
     # models built by DragModelMultiBC (their table already carries the BC law; their BC is the sectional density when weight and
     # diameter are given, else 1): the solver must use THAT table and THAT BC
     U = m.Unit
-    for j, (w_, d_) in enumerate(((U.Grain(168), U.Inch(0.308)), (0, 0))):
+    # The table the solver must realise is computed HERE from the statement (Cd of the source table x BC of the model / BC(M), BC(M)
+    # the piecewise-linear interpolant of the given points, clamped outside them) - not read back from the model.
+    def bc_at(knots, x):
+        ks = sorted(knots)
+        if x <= ks[0][0]:
+            return Fraction(ks[0][1])
+        if x >= ks[-1][0]:
+            return Fraction(ks[-1][1])
+        for (x0, b0), (x1, b1) in zip(ks, ks[1:]):
+            if x0 <= x <= x1:
+                return Fraction(b0) + (Fraction(b1) - Fraction(b0)) * (Fraction(x) - Fraction(x0)) / (Fraction(x1) - Fraction(x0))
+    for j, (w_, d_, knots) in enumerate(((U.Grain(168), U.Inch(0.308), [(2.2, 0.27), (0.9, 0.31), (1.47, 0.29)]),
+                                          (0, 0, [(0.7, 0.25), (1.3, 0.31), (1.9, 0.27), (2.6, 0.30), (3.4, 0.26)]),
+                                          (0, 0, [(3.0, 0.24), (2.0, 0.26), (1.0, 0.25), (0.5, 0.28)]))):
         src = [(p["Mach"], p["CD"]) for p in m.TableG7][:: 3]
-        mdl = m.DragModelMultiBC([m.BCPoint(0.31, Mach=0.9), m.BCPoint(0.27, Mach=2.2), m.BCPoint(0.29, V=U.MPS(500))],
-                                 [{"Mach": a, "CD": b} for a, b in src], w_, d_, U.Inch(1.2) if j == 0 else 0)
-        tabs.append((f"multibc{j}", [(p_.Mach, p_.CD) for p_ in mdl.drag_table], False, mdl))
+        mdl = m.DragModelMultiBC([m.BCPoint(b_, Mach=x_) for x_, b_ in knots], [{"Mach": a, "CD": b} for a, b in src], w_, d_,
+                                 U.Inch(1.2) if j == 0 else 0)
+        want_pts = [(a, float(Fraction(b) * Fraction(float(mdl.BC)) / bc_at(knots, a))) for a, b in src]
+        tabs.append((f"multibc{j}", want_pts, False, mdl))
     for ti, tab_ in enumerate(tabs):
         name, pts, shipped = tab_[:3]
         prebuilt = tab_[3] if len(tab_) > 3 else None
